@@ -1,6 +1,6 @@
 (* C05 — a session gains a factor only when its own user proves that factor. *)
 From Coq Require Import List NArith ZArith Bool.
-From KM Require Import Model.Session Proofs.Session.
+From KM Require Import Base.Bytes Model.Session Proofs.Session Model.Profiles Proofs.Profiles.
 Import ListNotations.
 
 (* For EVERY history (any length, any number of users and sessions, any enrolment `d`, any
@@ -61,6 +61,77 @@ Theorem c05_cookie_expired : forall d w fault s o cs c,
   cookies_of o = Some cs -> pick (fixed d w) (attached s cs) = Some c -> (cexp c <= now s)%Z ->
   step_req (fixed d w) None fault s o = (s, None).
 Proof. intros d w fault s o cs c. apply expired_cookie_refused. Qed.
+
+(* one-time values are FRESH.  `minted` is the ghost list of the ids of all one-time values ever handed
+   out (hardware-token challenges of both begin handlers, bootstrap OTPs, push transactions); `handed`
+   is what the correspondence observes per step (the harness numbers the distinct byte strings it is
+   handed in order of first appearance).  In every history no value is handed out twice, and the
+   value a step hands out was never handed out before, is nobody's pending challenge or stored OTP,
+   and was never accepted: a begin never revives an old value *)
+Theorem c05_fresh_values : forall d w ops o i,
+  let s := fst (run (fixed d w) init ops) in
+  let s' := fst (step (fixed d w) s o) in
+  NoDup (minted s) /\
+  (handed s s' = Some i ->
+     ~ In i (minted s) /\ minted s' = i :: minted s /\
+     (forall u ch, chal s u = Some ch -> chid ch <> i) /\
+     (forall u b, boot s u = Some b -> bserial b <> i) /\
+     ~ In (OtChal i) (spent s) /\ (forall u, ~ In (OtBoot u i) (spent s))).
+Proof.
+  intros d w ops o i s s'. pose proof (run_Inv3 (fixed d w) ops) as HK. split.
+  - destruct HK as [K0 _]. exact K0.
+  - exact (handed_new (fixed d w) s o i HK).
+Qed.
+
+(* ... and the expiry of a value is fixed when it is handed out: a challenge that is pending after a
+   step under the id of one that was pending before it is that same challenge (same user, same
+   ExpiresAt, same kind), likewise a stored bootstrap OTP — no operation re-stamps a pending value.
+   With c05_expired: a value never works after its ORIGINAL expiry *)
+Theorem c05_value_fixed : forall d w ops o,
+  let s := fst (run (fixed d w) init ops) in
+  let s' := fst (step (fixed d w) s o) in
+  (forall u ch u' ch', chal s u = Some ch -> chal s' u' = Some ch' -> chid ch' = chid ch -> u' = u /\ ch' = ch) /\
+  (forall u b b', boot s u = Some b -> boot s' u = Some b' -> bserial b' = bserial b -> b' = b).
+Proof.
+  intros d w ops o s s'. pose proof (run_Inv3 (fixed d w) ops) as HK.
+  pose proof (run_Inv2 (fixed d w) ops eq_refl eq_refl) as HJ. split.
+  - intros u ch u' ch'. exact (chal_fixed (fixed d w) s o u ch u' ch' HJ HK).
+  - intros u b b'. exact (boot_fixed (fixed d w) s o u b b' HK).
+Qed.
+
+(* WHOSE enrolment a handler works with.  User names are byte strings; the profile table is the list
+   of its rows in scan order.  A name is served the row stored under EXACTLY that name (if any):
+   whatever other names the table holds — names that are patterns of it or match it as a pattern
+   under SQL LIKE, an LDAP filter, a regular expression, a path; names that differ in case or by
+   trailing blanks — and whatever the order of the rows (which account was written more recently).
+   The theorems above hold for every enrolment function `d`, in particular for
+   `devs_of names table`; the correspondence instantiates them with the rows the harness wrote. *)
+Theorem c05_profile_exact : forall n t d, lookup n t = Some d -> In (n, d) t.
+Proof. exact lookup_exact. Qed.
+
+Theorem c05_profile_save : forall n n' d t,
+  lookup n' (save n d t) = if bs_eqb n' n then Some d else lookup n' t.
+Proof. exact lookup_save. Qed.
+
+Theorem c05_profile_order : forall n t t',
+  wf t -> wf t' -> (forall r, In r t <-> In r t') -> lookup n t = lookup n t'.
+Proof. exact lookup_order. Qed.
+
+Theorem c05_profile_users : forall names t u d v,
+  (forall a b, names a = names b -> a = b) ->
+  devs_of names (save (names u) d t) v = if N.eqb v u then d else devs_of names t v.
+Proof. exact devs_of_save. Qed.
+
+(* the same table read with a pattern match (SQL LIKE) instead of equality: `j_doe` is served the row
+   of `jadoe` when that row is older or when j_doe has no row, its own row otherwise *)
+Theorem c05_like_lookup_refuted :
+  let t := save n_j_doe d_key (save n_jadoe d_totp []) in
+  let t' := save n_jadoe d_totp (save n_j_doe d_key []) in
+  wf t /\ lookup_like n_j_doe t = Some d_totp /\ ~ In (n_j_doe, d_totp) t /\
+  lookup_like n_j_doe t' = Some d_key /\
+  lookup n_j_doe t = Some d_key /\ lookup n_j_doe t' = Some d_key /\
+  lookup_like n_j_doe (save n_jadoe d_totp []) = Some d_totp /\ lookup n_j_doe (save n_jadoe d_totp []) = None.
+Proof. exact like_lookup_foreign. Qed.
 
 (* the statement is false of the handlers as they were *)
 Theorem c05_old_poll_refuted :
@@ -123,4 +194,17 @@ Example c05_history :
          Tick 30; Req (Some 1%N) false (Totp [0%nat] (TCode 1 102))]))
   = [None; Some (1, 2); Some (2, 2); Some (1, 66); None; None; None; Some (1, 1024); None;
      None; None; None; Some (1, 576)]%N.
+Proof. vm_compute. reflexivity. Qed.
+
+(* non-vacuity of the freshness statements: a second sign request 31 s after the first hands out a NEW
+   value (ids 0 and 1); the assertion over the first, expired, challenge is refused, the one over the
+   second accepted — once *)
+Example c05_begin_twice :
+  let d := fun _ => {| has_totp := false; has_u2f := true; has_wa := false; has_profile := true |} in
+  map (fun ob => match ob with (ok, c, i) => (ok, match c with Some c => Some (clevel c) | None => None end, i) end)
+      (run_obs (fixed d 8) init
+        [Login 1 true; U2fBegin [0%nat]; Tick 31; U2fBegin [0%nat]; U2fFinish [0%nat] (asrt 1 0 false);
+         U2fFinish [0%nat] (asrt 1 1 false); U2fFinish [0%nat] (asrt 1 1 false)])
+  = [(true, Some 2, None); (true, None, Some 0); (true, None, None); (true, None, Some 1); (false, None, None);
+     (true, Some 10, None); (false, None, None)]%N.
 Proof. vm_compute. reflexivity. Qed.
